@@ -92,6 +92,15 @@ func c03Check(w *mc.W, st *c03State, b []byte, unit string) {
 				fmt.Sprintf("input %s: call %d is %s, specification says %s", hexShort(b), i, callAt(st.rd.Calls, i), callAt(p.Calls, i)), mkBytesCase(b, unit))
 		}
 	}
+	// validation only (no destination): the same strings are accepted
+	{
+		var nerr error
+		if pnc, _ := guard(func() { nerr = decode.Decode(nil, b) }); pnc != nil {
+			w.Fail("panic:Decode(nil)", fmt.Sprintf("Decode(nil, %s) panicked: %v", hexShort(b), pnc), mkBytesCase(b, unit))
+		} else if (nerr == nil) != p.OK {
+			w.Fail(fmt.Sprintf("accept-mismatch:nil-destination-accepts=%v", nerr == nil), fmt.Sprintf("Decode(nil, %s) err=%v, the specification says well formed: %v (%s)", hexShort(b), nerr, p.OK, p.Reason), mkBytesCase(b, unit))
+		}
+	}
 	// the metadata-only entry point reads the same grammar (metadata units): it accepts exactly
 	// the strings whose magic and metadata section are well formed
 	if strings.HasPrefix(unit, "meta/") {
